@@ -96,7 +96,12 @@ fn body_recurse(
                 body_recurse(group.stream(), captured, lines, group_indent);
                 let multiline = lines.len() > n_lines;
                 if multiline {
-                    lines.last_mut().unwrap().truncate(indent);
+                    if lines.last().unwrap().trim().is_empty() {
+                        lines.last_mut().unwrap().truncate(indent);
+                    } else {
+                        // a trailing expression without `;` is still on the last line: keep it
+                        lines.push(" ".repeat(indent));
+                    }
                 }
                 lines
                     .last_mut()
